@@ -98,6 +98,9 @@ public:
    /** Destructor */
    virtual ~TelnetPlainTextMessageIOGateway();
 
+   /** Overridden to also forget any partially received telnet command or sub-negotiation. */
+   virtual void Reset() {PlainTextMessageIOGateway::Reset(); _inSubnegotiation = false; _commandBytesLeft = 0;}
+
 protected:
    virtual void FilterInputBuffer(char * buf, uint32 & bufLen, uint32 maxLen);
 
